@@ -427,9 +427,25 @@ class Function:
         return "\n".join(out)
 
 
+_PARAM_NAMES = None
+
+
+def _param_names():
+    global _PARAM_NAMES
+    if _PARAM_NAMES is None:
+        path = os.path.join(os.path.dirname(os.path.dirname(os.path.abspath(__file__))), "tables", "param_names.json")
+        try:
+            with open(path) as fh:
+                _PARAM_NAMES = json.load(fh).get("params", {})
+        except Exception:
+            _PARAM_NAMES = {}
+    return _PARAM_NAMES
+
+
 class Program:
-    def __init__(self, factdir):
+    def __init__(self, factdir, canonical=True):
         self.factdir = factdir
+        self.canonical = canonical
         self.crates = {}
         self.fns = {}          # path -> Function (lib + bins)
         self.adts = {}
@@ -448,6 +464,13 @@ class Program:
                         self.crates[crate] = j
                     elif k == "fn":
                         f = Function(j, crate)
+                        if canonical:
+                            # parameter names by position from the reference table: a renamed parameter keeps its role name
+                            ref = _param_names().get(f.path)
+                            if ref is not None and len(ref) == f.arg_count:
+                                for i, nm in enumerate(ref):
+                                    if nm and f.locals[i + 1].get("name") not in (None, nm):
+                                        f.locals[i + 1] = dict(f.locals[i + 1], name=nm, renamed_from=f.locals[i + 1].get("name"))
                         self.fns[f.path] = f
                     elif k == "adt":
                         j["crate"] = crate
